@@ -1378,6 +1378,13 @@ class PyCdlib:
                                                current_extent - part_start)
             if fi_desc is not None:
                 fi_desc.set_icb(current_extent, current_extent - part_start)
+            # The 'parent' File Identifier Descriptor of a directory points at
+            # the File Entry of the parent directory (the root is its own
+            # parent); parents are always assigned before their children.
+            if udf_file_entry.parent is not None:
+                parent_extent = udf_file_entry.parent.extent_location()
+            else:
+                parent_extent = current_extent
             current_extent += 1
 
             # Now assign where the File Entry points to; for files this is
@@ -1400,6 +1407,8 @@ class PyCdlib:
 
                 d.set_extent_location(current_extent,
                                       current_extent - part_start)
+                if d.is_parent():
+                    d.icb.log_block_num = parent_extent - part_start
                 if not d.is_parent() and d.file_entry is not None:
                     if d.is_dir():
                         udf_file_entries.append((d.file_entry, d))
